@@ -311,10 +311,15 @@ def _run(P, rep, tier, prefix):
             package is followed into that helper (one forwarding method, one level)."""
             uses_ = [n for n in walk_no_nested(fn.node) if isinstance(n, ast.Name) and n.id == pname and isinstance(n.ctx, ast.Load)]
             bad_ = []
+            # locals bound to a stream's read method (read = fp.read): calling them is reading
+            read_aliases = {t.id for n in walk_no_nested(fn.node) if isinstance(n, ast.Assign) and isinstance(n.value, ast.Attribute)
+                            and n.value.attr in ('read', 'readline', 'read1') for t in n.targets if isinstance(t, ast.Name)}
             for u in uses_:
                 ok = False
                 for n in walk_no_nested(fn.node):
                     if isinstance(n, ast.Call) and isinstance(n.func, ast.Attribute) and n.func.attr in ('read', 'readline', 'read1') and u in n.args:
+                        ok = True
+                    if isinstance(n, ast.Call) and isinstance(n.func, ast.Name) and n.func.id in read_aliases and u in n.args:
                         ok = True
                     if isinstance(n, ast.Call) and depth < 2 and (u in n.args or any(kw.value is u for kw in n.keywords)):
                         try:
